@@ -951,10 +951,32 @@ func (e *Env) evalCall(x *ECall) Val {
 			if !ok {
 				efail("f64(n, d)")
 			}
+			// a typed Go float64 constant is named by its value ROUNDED to float64 (0.685 is 1542482872374395/2^51)
+			f, _ := r.Float64()
+			if rr := new(big.Rat).SetFloat64(f); rr != nil {
+				r = rr
+			}
 			return Val{T: g.floatConst(r.RatString()), Sort: SFloat}
 		}
 		efail("f64(n) or f64(n, d)")
 		return Val{}
+	case "fmul", "fadd", "fsub", "fdiv":
+		// the engine's own (uninterpreted) float64 operations: the same symbols the translation of the code uses
+		return Val{T: app(g.declareUF(name, []string{SFloat, SFloat}, SFloat), arg(0).T, arg(1).T), Sort: SFloat}
+	case "flt", "fle", "fgt", "fge", "feq":
+		return boolVal(app(g.declareUF(name, []string{SFloat, SFloat}, SBool), arg(0).T, arg(1).T))
+	case "i2f":
+		return Val{T: app(g.declareUF("i2f", []string{SInt}, SFloat), arg(0).T), Sort: SFloat}
+	case "f2i":
+		// f2i(x, T): conversion of a float64 to the Go integer type T as the code's `T(x)` computes it (uninterpreted)
+		if len(x.Args) != 2 {
+			efail("f2i(x, T)")
+		}
+		_, it := e.resolveType(exprString(x.Args[1]))
+		if it == nil {
+			efail("f2i: %s is not a Go integer type", exprString(x.Args[1]))
+		}
+		return intVal(app(g.declareUF("f2i:"+typeStr(it), []string{SFloat}, SInt), arg(0).T))
 	case "zero":
 		// zero(T): the zero value of the Go type T (arrays, structs, scalars), e.g. zero(common.Hash)
 		if len(x.Args) != 1 {
